@@ -34,6 +34,10 @@ def make_copy():
     return d, dst
 
 
+KNOWN_KEYS = {(k["property"], k["key"]) for k in json.load(open(os.path.join(V, "known_findings.json")))["findings"]
+              if k.get("status") == "known"}
+
+
 def prop_status(pid, prog):
     """(#new violations, floor error or None) of a property on prog, without touching evidence files"""
     spec = PROPS[pid]
@@ -45,7 +49,7 @@ def prop_status(pid, prog):
             cache[rid] = RULES[rid]["run"](prog)
         res = [r for r in cache[rid] if sel is None or sel(r)]
         dec = [r for r in res if r["verdict"] in ("ok", "violation")]
-        nv += sum(1 for r in res if r["verdict"] == "violation")
+        nv += sum(1 for r in res if r["verdict"] == "violation" and (pid, r["key"]) not in KNOWN_KEYS)
         if len(dec) < floor:
             ferr = "floor %s %d<%d" % (rid, len(dec), floor)
     return nv, ferr
